@@ -14,7 +14,7 @@ def run(ctx):
     if not can_run:
         common.broken_without_input(ctx, "build", ctx.notes[-1] if ctx.notes else "")
         return
-    k = 5 if ctx.thorough() else 1
+    k = ctx.scale(5)
     stores = generic.stores_for(ctx, {"conforming": 150 * k, "rendered-conforming": 150 * k, "injected": 40, "random": 30})
     sb = [(f, b) for f, b, _ in stores]
     dis, parsed = pipe.diag_compare(ctx, sb)
